@@ -256,6 +256,60 @@ func c07Structures(r *run.Run) {
 	}
 }
 
+// every simple lookup of the menus under every flag combination on all short sequences: the safety
+// clauses (no panic, termination, text conserved) do not need the reference shaper, so lookup types it
+// does not model (cursive attachment) are included
+func c07Simple(r *run.Run) {
+	alphabet := []glyph.ID{gen.GA, gen.GB, gen.GM, gen.GN, gen.GL}
+	r.Explore(explore.Config{Name: "C07.simple", Deadline: r.PartDeadline(0.2)},
+		"every simple GSUB and GPOS lookup of the menus (incl. cursive attachment) x every flag combination x 4 GDEF variants, delivered through Encode/Read, on all glyph sequences of length <= 4 over {A,B,M,N,L}: no panic, termination, every input character exactly once in the output",
+		func(c *explore.Ctx) {
+			gpos := c.Bool("gpos")
+			menu := gen.GsubSimple
+			if gpos {
+				menu = gen.GposSimple
+			}
+			k := c.Choose(len(menu), "lookup")
+			f := gen.Flags[c.Choose(len(gen.Flags), "flags")]
+			gd, gdn := gen.Gdef(c.Choose(4, "gdef"))
+			ll := gtab.LookupList{gen.MakeLookup(menu[k].Type, f, menu[k].Sub())}
+			desc := menu[k].Name + " " + f.Name + ", gdef:" + gdn
+			c.Sample(func() any { return desc })
+			if ll = deliver(ll, []gtab.LookupIndex{0}, gpos); ll == nil {
+				c.Tag("not deliverable by the reader: " + desc)
+				return
+			}
+			c.Nontrivial()
+			c.Outcome(desc)
+			gen.Sequences(alphabet, 4, func(g []glyph.ID) bool {
+				var out []glyph.Info
+				fin, pmsg := withWatchdog(20*time.Second, func() { out = gtab.NewContext(ll, gd, []gtab.LookupIndex{0}).Apply(seqWithText(g)) })
+				if !fin {
+					c.FailObserved("C07.terminates", "simple: "+menu[k].Name, "Apply(%s) does not return within 20 s; %s", gen.SeqName(g), desc)
+					return false
+				}
+				if pmsg != "" {
+					c.Fail("C07.panic", "simple: "+explore.PanicSignature(pmsg), "Apply(%s) panics: %s; %s", gen.SeqName(g), pmsg, desc)
+					return false
+				}
+				var runes []rune
+				for _, gi := range out {
+					runes = append(runes, gi.Text...)
+				}
+				sort.Slice(runes, func(i, j int) bool { return runes[i] < runes[j] })
+				want := ""
+				for i := range g {
+					want += string(rune(0x100 + i)) // the characters seqWithText attaches
+				}
+				if string(runes) != want {
+					c.Fail("C07.text", "simple: "+menu[k].Name, "Apply(%s): the output carries the characters %q, the input %q; %s", gen.SeqName(g), string(runes), want, desc)
+					return false
+				}
+				return true
+			})
+		})
+}
+
 // history independence: after any history of Apply calls on one Context,
 // Apply(s) equals Apply(s) on a fresh Context.
 func c07History(r *run.Run) {
@@ -519,6 +573,7 @@ func init() {
 			"positioning data the library declares unimplemented (device offsets, vertical advance) is excluded",
 		}
 		// cheap parts first; the history search is by far the largest and takes what remains
+		c07Simple(r)
 		c07Structures(r)
 		c07Bytes(r)
 		c07MapOrder(r)
